@@ -220,6 +220,16 @@ func (c *Checker) afterCall(x *callCtx) {
 	if !ok && x.msg != nil && x.ann.kind == "deliver" && x.msg.Fn == FnHandOver && x.fault < 0 && strings.HasPrefix(x.res.Status, "err:") {
 		c.report(x, "C10", "the create-role hand-over message emitted for %x (arguments %x) is refused on its destination shard: %s", x.msg.Dest, x.msg.Args, x.res.Status)
 	}
+	// C10: the two halves of a cross-shard transfer agree. A message the sender half emitted (delivered as it was emitted)
+	// can be refused on its destination shard for what the DESTINATION's state says - frozen, paused, not payable, another
+	// hash under the same nonce - or because the payable oracle fails; never as malformed or unauthorised
+	if !ok && x.msg != nil && x.ann.kind == "deliver" && IsTransferFn(x.call.Fn) && x.fault < 0 && strings.HasPrefix(x.res.Status, "err:") {
+		legit := map[string]bool{"err:ESDTIsFrozenForAccount": true, "err:ESDTTokenIsPaused": true, "err:AccountNotPayable": true,
+			"err:WrongNFTOnDestination": true, "err:Injected": true}
+		if !legit[x.res.Status] && !(x.res.Status == "err:Other" && c.PayableAnswer(x.msg.Dest) == "err") {
+			c.report(x, "C10", "the %s message the sender half emitted for %x (arguments %x) is refused on its destination shard as %s: the two halves of the transfer disagree", x.call.Fn, x.msg.Dest, x.msg.Args, x.res.Status)
+		}
+	}
 	// C08 / C10: "wrong NFT on destination" is the answer to ONE situation - the destination holds the same (token, nonce)
 	// with another hash (or holds metadata while nothing comes with the item); mutable metadata (attributes, URIs) and
 	// an empty hash on both sides are not a reason to refuse what the sender half has already debited
@@ -729,6 +739,16 @@ func (c *Checker) checkFootprint(x *callCtx, diffs []diffSlot) {
 			nonceSet[string(NonceBytes(U64(r)))] = true
 		}
 	}
+	// a transfer names (token, nonce) PAIRS: the entries it may touch are exactly those of its items
+	var itemKeys map[string]bool
+	if IsTransferFn(call.Fn) {
+		if sh := shapeOf(c.w, call); sh.ok {
+			itemKeys = map[string]bool{}
+			for _, it := range sh.items {
+				itemKeys[it.key()] = true
+			}
+		}
+	}
 	for _, d := range diffs {
 		okAcct := bytes.Equal(d.addr, call.Caller) || bytes.Equal(d.addr, call.Rcv) || bytes.Equal(d.addr, SystemAccount) || argSet[string(d.addr)]
 		if !okAcct {
@@ -744,6 +764,10 @@ func (c *Checker) checkFootprint(x *callCtx, diffs []diffSlot) {
 			if !acctFn {
 				c.report(x, "C05", "%s changed slot %s of account %x", call.Fn, d.slot, d.addr)
 			}
+			continue
+		}
+		if itemKeys != nil && strings.HasPrefix(d.key, EsdtPrefix) && !itemKeys[d.key] && !bytes.Equal(d.addr, SystemAccount) {
+			c.report(x, "C05", "%s changed the token entry %x of account %x, which is not the entry of any (token, nonce) item of the transfer", call.Fn, d.key, d.addr)
 			continue
 		}
 		if acctFn || !c.keyInFootprint(d.key, argSet, nonceSet) {
